@@ -73,6 +73,7 @@ type ReplayFile struct {
 	Check     string            `json:"check"`
 	Sig       string            `json:"sig"`
 	Detail    string            `json:"detail"`
+	VerdictOnly bool            `json:"verdict_only,omitempty"` // the violation is non-reproducibility of the code under test: a replay shows it again only by chance
 	Info      map[string]string `json:"info"`
 	LogHash   string            `json:"log_hash"`
 	Log       []string          `json:"log"`
@@ -296,13 +297,28 @@ func (w *Worker) Handle(r *Run, runIdx, runSeed uint64) bool {
 	tape, stape, execs := w.Minimise(r.T.Values(), r.T.SchedValues(), r.V)
 	tp := ReplayTape2(tape, stape)
 	fr := w.Exec(tp, true)
+	if !sameViolation(fr.V, r.V) && r.V.VerdictOnly {
+		// the code under test is not reproducible (that is the violation): minimisation ran on noise. Fall back to
+		// the tapes of the observed execution; whether a re-execution shows the difference again is a matter of
+		// chance, the observation itself stands.
+		tp = ReplayTape2(r.T.Values(), r.T.SchedValues())
+		for try := 0; try < 4; try++ {
+			if fr = w.Exec(tp, true); sameViolation(fr.V, r.V) {
+				break
+			}
+		}
+		if !sameViolation(fr.V, r.V) {
+			fr = r
+		}
+		execs = 0
+	}
 	if !sameViolation(fr.V, r.V) {
 		// could not reproduce even the original: determinism defect of the machinery
 		w.Res.Nondet = append(w.Res.Nondet, fmt.Sprintf("violation %s did not reproduce on re-execution (run %d)", key, runIdx))
 		return false
 	}
 	rf := &ReplayFile{Property: w.E.Prop, Lane: fr.Lane, Tier: w.Job.Tier, Seed: w.Job.Seed, RunIndex: runIdx, RunSeed: runSeed,
-		Tape: tp.Values(), SchedTape: tp.SchedValues(), OrigLen: len(r.T.Values()) + len(r.T.SchedValues()), Check: fr.V.Check, Sig: fr.V.Sig, Detail: fr.V.Detail, Info: fr.Info,
+		Tape: tp.Values(), SchedTape: tp.SchedValues(), OrigLen: len(r.T.Values()) + len(r.T.SchedValues()), Check: fr.V.Check, Sig: fr.V.Sig, Detail: fr.V.Detail, VerdictOnly: fr.V.VerdictOnly, Info: fr.Info,
 		LogHash: fmt.Sprintf("%016x", fr.LogHash()), Log: fr.LogLines(), MinExecs: execs, Faults: fr.Faults, Param: w.Param}
 	name := fmt.Sprintf("%s-%s-%d-%d.json", w.E.Prop, sanitize(fr.V.Check), w.Job.Seed, runIdx)
 	if w.Param != "" {
@@ -340,7 +356,15 @@ func sanitize(s string) string {
 func (w *Worker) Recheck(r *Run, runIdx uint64) bool {
 	w.Res.Rechecks++
 	r2 := w.Exec(ReplayTape2(r.T.Values(), r.T.SchedValues()), false)
-	if r.V != nil && r.V.Check == "map-order" && sameViolation(r.V, r2.V) {
+	if (r.V != nil && r.V.VerdictOnly) || (r2.V != nil && r2.V.VerdictOnly) {
+		// one of the two executions caught the code under test giving two results for one input: that violation
+		// (not a determinism defect of the machinery) is what explains any difference between the executions
+		if r.V == nil {
+			r.V = r2.V
+		}
+		return true
+	}
+	if r.V != nil && (r.V.Check == "map-order" || r.V.VerdictOnly) && sameViolation(r.V, r2.V) {
 		// the violation itself says that iteration order escaped the simulator's control from that point on:
 		// only the verdict can be expected to repeat
 		return true
@@ -534,7 +558,7 @@ func (w *Worker) replay() {
 		out["detail"] = r.V.Detail
 		if r.V.Check == rf.Check && r.V.Sig == rf.Sig {
 			out["reproduced"] = true
-			out["exact"] = fmt.Sprintf("%016x", r.LogHash()) == rf.LogHash || r.V.Check == "map-order"
+			out["exact"] = fmt.Sprintf("%016x", r.LogHash()) == rf.LogHash || r.V.Check == "map-order" || r.V.VerdictOnly
 		}
 	}
 	out["log"] = r.LogLines()
